@@ -371,6 +371,10 @@ def base_programs():
                                       edges=[edge("a", "b", ["v"]), edge("a", "c", ["u"]), edge("a", "d", ["v", "u"])])))
     P.append(("explicit-ordering", prog([fn("a", ["x"], ["m"]), fn("b", ["x"], ["m"]), fn("c", ["m"], ["w"])],
                                         edges=[edge("a", "b"), edge("b", "c")])))
+    # ONE declared edge is all that orders the two producers of m (it carries another value, t)
+    P.append(("explicit-single-edge", prog([fn("a", ["x"], ["m", "t"]), fn("b", ["x", "t"], ["m"]), fn("c", ["m"], ["w"])],
+                                           edges=[edge("a", "b", ["t"])])))
+    P.append(("explicit-no-edges", prog([fn("a", ["x"], ["y"]), fn("b", ["y"], ["z"])], edges=[])))     # declared: no edges at all (y is an input of b)
     P.append(("explicit-gate", prog([ifelse("g", ["x"], "a", "b"), fn("a", ["x"], ["r"]), fn("b", ["x"], ["r"]),
                                      fn("c", ["r"], ["w"])], edges=[edge("a", "c"), edge("b", "c", ["r"])])))
     # strict mode
@@ -582,6 +586,9 @@ def flaws_at(p, path, quick):
     if L["explicit"]:
         byname = {n["name"]: n for n in L["nodes"]}
         for k, e in enumerate(L["edges"]):
+            d, q, l = mut("edge-dropped", edge=k)          # the user forgot to declare this edge (possibly the only one)
+            del l["edges"][k]
+            yield d, q
             for end in ("src", "dst"):
                 d, q, l = mut("edge-unknown-node", edge=k, end=end)
                 l["edges"][k][end] = "zz"
